@@ -90,10 +90,13 @@ def extract(g, spec):
         summ = A.ArmSummarizer(g)
         for path in spec['fns']:
             f2 = g.fn(path)
-            w, c, e = summ.summarize_blocks(f2, f2.reach, 1, depth=spec.get('depth', 2))
+            cnt = Counter() if spec.get('counts') else None
+            w, c, e = summ.summarize_blocks(f2, f2.reach, 1, depth=spec.get('depth', 2), count=cnt)
             out[path] = {'writes': sorted(w), 'calls': sorted(c), 'errs': sorted(e)}
+            if cnt is not None:
+                out[path]['calls'] = ['%s*%d' % kv for kv in sorted(cnt.items())]
             if spec.get('reads'):
-                out[path]['reads'] = sorted(summ.field_reads(f2, f2.reach, 1))
+                out[path]['reads'] = sorted(summ.param_field_reads(f2, f2.reach))
         return out
     ef = E.Eff(g, extra_atoms=spec.get('extra_atoms'))
     if kind == 'fneff':
